@@ -49,6 +49,13 @@ Lemma Forall2_imp {A B} (P Q : A -> B -> Prop) :
   (forall a b, P a b -> Q a b) -> forall l l', Forall2 P l l' -> Forall2 Q l l'.
 Proof. intros H l l' F; induction F; constructor; auto. Qed.
 
+Lemma NoDup_app_both {A} : forall (l1 l2 : list A), NoDup (l1 ++ l2) -> NoDup l1 /\ NoDup l2.
+Proof.
+  induction l1 as [|x t IH]; cbn; intros l2 H; [split; [constructor|auto]|].
+  inversion H as [|? ? N1 N2]; subst. destruct (IH _ N2) as [A1 A2]. split; auto.
+  constructor; auto. intro X. apply N1. apply in_or_app; auto.
+Qed.
+
 Lemma assoc_In {A} : forall k (l : list (string * A)) v, assoc k l = Some v -> In (k, v) l.
 Proof.
   induction l as [|[k' v'] t IH]; cbn; intros v E; [discriminate|].
@@ -440,9 +447,9 @@ Section CallProofs.
     inversion ND as [|? ? N1 N2]; subst.
     destruct (is_none v') eqn:Z; cbn.
     - destruct (String.eqb k' k) eqn:E.
-      + apply String.eqb_eq in E; subst. rewrite IH; auto. rewrite assoc_notin; auto.
+      + apply String.eqb_eq in E; subst. rewrite IH; auto. rewrite assoc_notin; auto; rewrite ?Z; reflexivity.
       + apply IH; auto.
-    - destruct (String.eqb k' k) eqn:E; auto.
+    - destruct (String.eqb k' k) eqn:E; [rewrite ?Z; reflexivity|apply IH; auto].
   Qed.
 
   Lemma schema_default_hit : forall attrs1 a attrs2 s,
@@ -508,7 +515,7 @@ Section CallProofs.
             exists (a :: a1), a0, a2. cbn. repeat split; auto; try congruence.
             intros [X|X]; auto. rewrite R1 in E. rewrite X, E3, String.eqb_refl in E. discriminate. }
       destruct X as [a1 [a [a2 [E1 [E2 [E3 E4]]]]]]. subst k v.
-      symmetry. eapply schema_default_hit; eauto. congruence.
+      symmetry. apply (schema_default_hit a1 a a2 s); [congruence|exact E2].
   Qed.
 
   (* --- the call theorem *)
@@ -530,7 +537,7 @@ Section CallProofs.
     destruct (bind_pos_shape _ _ _ BP) as [P1 [P2 [k P3]]].
     destruct (bind_kw_shape _ _ _ BK) as [NDg [Sub [Keys F]]].
     assert (NoDup (map p_name (in_params m)) /\ NoDup (map p_name (kw_params m))) as [NDi NDk].
-    { rewrite Msplit, map_app in MND. split; [eapply NoDup_app_remove_r|eapply NoDup_app_remove_l]; eauto. }
+    { rewrite Msplit, map_app in MND. apply NoDup_app_both; auto. }
     (* inputs *)
     assert ((match m_prepare m with
              | None => Some []
